@@ -128,3 +128,54 @@ def rule_env_exponent(ctx):
     r.floor(n_prod, 2, "environment stores after a boundary sweep")
     r.floor(n_cons, 4, "selections from stored environments")
     return r
+
+
+def rule_private_boundary(ctx):
+    r = RuleResult(
+        "private-boundary",
+        "the boundary network that the 2D / 3D `_contract_boundary_core_via_*` routines hand to an in-place compressor "
+        "(tensor_network_1d_compress / _2d_compress / _ag_compress with inplace=True) consists of private copies of the "
+        "boundary tensors (split off with partition(), whose parts copy) — never a virtual view: compute_environments keeps "
+        "views of earlier boundaries, and compressors that rewrite tensors in place would silently corrupt those stored "
+        "environments",
+    )
+    COMPRESSORS = {"tensor_network_1d_compress", "tensor_network_2d_compress", "tensor_network_ag_compress"}
+    n = 0
+    for modname in MODULES:
+        mod = ctx.prog.modules.get(modname)
+        for f in mod.all_functions:
+            if f.is_alias or isinstance(f.node, ast.Lambda):
+                continue
+            for c in ast.walk(f.node):
+                if not (isinstance(c, ast.Call) and (getattr(c.func, "id", None) or getattr(c.func, "attr", None)) in COMPRESSORS):
+                    continue
+                if not any(k.arg == "inplace" and isinstance(k.value, ast.Constant) and k.value.value is True for k in c.keywords):
+                    continue
+                if not c.args or not isinstance(c.args[0], ast.Name):
+                    continue
+                name = c.args[0].id
+                defs = []
+                for a in ast.walk(f.node):
+                    if isinstance(a, ast.Assign) and a.lineno < c.lineno:
+                        for t0 in a.targets:
+                            for t in ast.walk(t0):
+                                if isinstance(t, ast.Name) and t.id == name:
+                                    defs.append(a)
+                if not defs:
+                    continue
+                n += 1
+                d = max(defs, key=lambda a: a.lineno)
+                txt_calls = [x for x in ast.walk(d.value) if isinstance(x, ast.Call)]
+                views = [x for x in txt_calls if any(k.arg == "virtual" and isinstance(k.value, ast.Constant) and k.value.value is True for k in x.keywords)
+                         or (isinstance(x.func, ast.Attribute) and x.func.attr in SELECTS | {"partition_tensors", "_select_tids", "select_tensors"})]
+                copies = [x for x in txt_calls if isinstance(x.func, ast.Attribute) and x.func.attr in ("partition", "copy")]
+                construct = f"{f.qualname}->{getattr(c.func, 'id', None) or c.func.attr}"
+                if views or not copies:
+                    r.bad(Finding("private-boundary", f.qualname,
+                                  f"`{name}` (from `{src_of(d.value)[:60]}`) is compressed in place but is {'a virtual view' if views else 'not split off with partition() / copied'}: "
+                                  "environments stored earlier share these tensor objects and are rewritten behind the caller's back",
+                                  where=f"{f.module.relpath}:{c.lineno}", operand=name))
+                else:
+                    r.ok(construct, sample={"function": f.qualname, "boundary": f"{name} = {src_of(d.value)[:50]}", "compressed": "in place, on private copies"})
+    r.floor(n, 2, "in-place boundary compressions")
+    return r
